@@ -120,7 +120,9 @@ def real_replay(job, sim_result):
                                    stdout=subprocess.PIPE, stderr=subprocess.STDOUT, timeout=600)
                 after = _walk(bdir)
                 modified = sorted(f for f in after if f not in before or before[f][0] != after[f][0])
-                obs.append({"rc": p.returncode, "modified": modified, "digests": {f: v[1] for f, v in after.items()},
+                text = p.stdout.decode(errors="replace")
+                obs.append({"rc": p.returncode, "ninja_failed": ("ninja: build stopped" in text or "FAILED: " in text or "ninja: error" in text),
+                            "modified": modified, "digests": {f: v[1] for f, v in after.items()},
                             "unknown_fault": unknown, "tail": p.stdout.decode(errors="replace")[-1500:]})
     finally:
         shutil.rmtree(base, ignore_errors=True)
@@ -149,7 +151,10 @@ def compare(case, sim_result, obs):
     sync = True
     for i, (si, ro) in enumerate(zip(invs, obs)):
         stats["invocations"] += 1
-        s_ok, r_ok = si["rc"] == 0, ro["rc"] == 0
+        # "succeeded" means the build ran to completion, whatever the driver then reports (a driver that swallows
+        # ninja's failure is the checks' business, not the stub validation's)
+        s_ok = si["rc"] == 0 and all(n["rc"] == 0 for n in si.get("ninja", []))
+        r_ok = ro["rc"] == 0 and not ro["ninja_failed"]
         if ro["unknown_fault"]:
             sync = False
             continue
